@@ -272,10 +272,28 @@ MUTANTS = [
 
 
 def replay(job, ob, vals, scratch):
+    m = re.match(r'lexer\.(value|path)\.', job.name)
     got = extract_inputs(vals, ("in",))
-    data = array_from(got, "in", 12)
-    return "input=%s" % bytes(data).hex(), None, {"input_hex": bytes(data).hex(), "input_repr": repr(bytes(data)),
-                                                  "note": "replay natively with specs/ninja_lex_ref.h against Lexer::ReadPath/ReadVarValue (tools/lexer_replay.cc)"}
+    data = array_from(got, "in", 14)
+    if not m:
+        return "input=%s" % bytes(data).hex(), None, {"input_hex": bytes(data).hex(), "note": "token/parser-side obligation: no native replay"}
+    if b"\x00" in bytes(data):
+        data = list(bytes(data)[:bytes(data).index(b"\x00")])
+    hexs = bytes(data).hex()
+    mode = "1" if m.group(1) == "path" else "0"
+    caret = "0" if "caret_gated" in job.name else "1"
+    d = os.path.join(scratch, "native_c12")
+    exe = os.path.join(d, "replay")
+    src = os.path.join(slicer.REPO, "src")
+    if not os.path.exists(exe):
+        os.makedirs(d, exist_ok=True)
+        subprocess.run(["g++", "-std=c++17", "-O1", "-g", "-fsanitize=address,undefined", "-I", src, "-I", os.path.join(VERIF, "specs"), os.path.join(VERIF, "tools", "lexer_replay.cc"),
+                        src + "/lexer.cc", src + "/eval_env.cc", src + "/util.cc", src + "/edit_distance.cc", src + "/string_piece_util.cc", src + "/metrics.cc", "-o", exe],
+                       cwd=d, check=True, capture_output=True, timeout=300)
+    p = subprocess.run([exe, hexs, mode, caret], capture_output=True, timeout=60)
+    out = (p.stdout + p.stderr).decode("utf-8", "replace")
+    return "input=%s mode=%s" % (hexs, mode), p.returncode != 0, {"input_hex": hexs, "input_repr": repr(bytes(data)), "mode": "path" if mode == "1" else "value", "native_rc": p.returncode,
+                                                              "native_output": out[-1500:], "replay_cmd": "g++ ... tools/lexer_replay.cc src/lexer.cc src/eval_env.cc ...; ./replay %s %s %s" % (hexs, mode, caret)}
 
 
 def describe(tier):
